@@ -742,6 +742,8 @@ func (this *encodingTask) encode(res *encodingTaskResult) {
 			}
 		}
 
+		verifPoint(0, 7, this.processedBlockID, this.currentBlockID, 0)
+
 		// Unblock other tasks
 		if res.err != nil {
 			atomic.StoreInt32(this.processedBlockID, _CANCEL_TASKS_ID)
@@ -749,9 +751,11 @@ func (this *encodingTask) encode(res *encodingTaskResult) {
 			atomic.CompareAndSwapInt32(this.processedBlockID, this.currentBlockID-1, this.currentBlockID)
 		}
 
+		verifPoint(0, 8, this.processedBlockID, this.currentBlockID, 0)
 		this.wg.Done()
 	}()
 
+	verifPoint(0, 0, this.processedBlockID, this.currentBlockID, 0)
 	hashType := kanzi.EVT_HASH_NONE
 
 	// Compute block checksum
@@ -931,11 +935,14 @@ func (this *encodingTask) encode(res *encodingTaskResult) {
 		}
 	}
 
+	verifPoint(0, 1, this.processedBlockID, this.currentBlockID, 0)
+
 	// Lock free synchronization
 	for n := 0; ; n++ {
 		taskID := atomic.LoadInt32(this.processedBlockID)
 
 		if taskID == _CANCEL_TASKS_ID {
+			verifPoint(0, 4, this.processedBlockID, this.currentBlockID, taskID)
 			return
 		}
 
@@ -943,10 +950,15 @@ func (this *encodingTask) encode(res *encodingTaskResult) {
 			break
 		}
 
+		verifPoint(0, 2, this.processedBlockID, this.currentBlockID, taskID)
+
 		if n&0x1F == 0 {
 			runtime.Gosched()
 		}
 	}
+
+	verifPoint(0, 3, this.processedBlockID, this.currentBlockID, 0)
+	verifPoint(0, 5, this.processedBlockID, this.currentBlockID, 0)
 
 	// Emit block size in bits (max size pre-entropy is 1 GB = 1 << 30 bytes)
 	lw := uint(3)
@@ -974,6 +986,8 @@ func (this *encodingTask) encode(res *encodingTaskResult) {
 			chkSize = uint(written)
 		}
 	}
+
+	verifPoint(0, 6, this.processedBlockID, this.currentBlockID, 0)
 }
 
 func notifyListeners(listeners []kanzi.Listener, evt *kanzi.Event) {
@@ -1785,6 +1799,8 @@ func (this *decodingTask) decode(res *decodingTaskResult) {
 			}
 		}
 
+		verifPoint(1, 7, this.processedBlockID, this.currentBlockID, 0)
+
 		// Unblock other tasks
 		if res.err != nil || (res.decoded == 0 && res.skipped == false) {
 			atomic.StoreInt32(this.processedBlockID, _CANCEL_TASKS_ID)
@@ -1792,14 +1808,18 @@ func (this *decodingTask) decode(res *decodingTaskResult) {
 			atomic.StoreInt32(this.processedBlockID, this.currentBlockID)
 		}
 
+		verifPoint(1, 8, this.processedBlockID, this.currentBlockID, 0)
 		this.wg.Done()
 	}()
+
+	verifPoint(1, 0, this.processedBlockID, this.currentBlockID, 0)
 
 	// Lock free synchronization
 	for n := 0; ; n++ {
 		taskID := atomic.LoadInt32(this.processedBlockID)
 
 		if taskID == _CANCEL_TASKS_ID {
+			verifPoint(1, 4, this.processedBlockID, this.currentBlockID, taskID)
 			return
 		}
 
@@ -1807,10 +1827,15 @@ func (this *decodingTask) decode(res *decodingTaskResult) {
 			break
 		}
 
+		verifPoint(1, 2, this.processedBlockID, this.currentBlockID, taskID)
+
 		if n&0x1F == 0 {
 			runtime.Gosched()
 		}
 	}
+
+	verifPoint(1, 3, this.processedBlockID, this.currentBlockID, 0)
+	verifPoint(1, 5, this.processedBlockID, this.currentBlockID, 0)
 
 	// Read shared bitstream sequentially
 	blockOffset := this.ibs.Read()
@@ -1851,9 +1876,12 @@ func (this *decodingTask) decode(res *decodingTaskResult) {
 		read -= uint64(chkSize)
 	}
 
+	verifPoint(1, 6, this.processedBlockID, this.currentBlockID, 0)
+
 	// After completion of the bitstream reading, increment the block id.
 	// It unblocks the task processing the next block (if any)
 	atomic.StoreInt32(this.processedBlockID, this.currentBlockID)
+	verifPoint(1, 9, this.processedBlockID, this.currentBlockID, 0)
 
 	// Check if the block must be skipped
 	if v, hasKey := this.ctx["from"]; hasKey {
